@@ -7,13 +7,20 @@
 (*   Dev = {}                            every behaviour accepted                                   *)
 (*   Dev = {"testreq_grace_is_one_tick"} the Logout follows at the very next tick after the        *)
 (*                                       TestRequest (the silence clock is not restarted)          *)
+(*   Dev = {"no_testreq_while_resend_outstanding"}  supervision of the receive side is suspended   *)
+(*                                       while the session's own ResendRequest is outstanding      *)
+(* RecvHigh: an application message numbered above the expected one meets the session in normal    *)
+(* operation - it answers with a ResendRequest and is in state resend_request_sent; the            *)
+(* counterparty then stays silent (what comes after a gap is the subject of C20), so supervision   *)
+(* has to notice a dead peer in that state too.                                                    *)
 EXTENDS SessionMsgs
 
 CONSTANTS Dev, H, MaxSteps, MaxNow
 
 VARIABLES t,        \* session record (SInit shape) plus clock fields
           clk,      \* [now, lastSent, lastRecv, trAt]
-          hist, mon, bad
+          hist, mon, bad,
+          gap       \* a too-high message has been received (RecvHigh): the counterparty is silent from then on
 
 Grace == H + H \div 5
 MCfg == [prop |-> "C22", role |-> "ini", persist |-> "mem", sender |-> "INI", target |-> "ACC", hb |-> H,
@@ -37,7 +44,7 @@ DoTick(dt) ==
         silent == now - clk.lastRecv > Grace
         pending == t.st = 9
         expire == pending /\ silent /\ (now - clk.trAt > Grace \/ "testreq_grace_is_one_tick" \in Dev)
-        ask == ~pending /\ silent
+        ask == ~pending /\ silent /\ ~("no_testreq_while_resend_outstanding" \in Dev /\ t.st = 12)
         tr == [Out("1", ns1) EXCEPT !.testreqid = "TEST"]
         lo == Out("5", ns1)
         out == (IF idle THEN <<Stamp(hb, now)>> ELSE <<>>)
@@ -62,6 +69,13 @@ DoRecvTestReq ==
     IN [t |-> t1, ev |-> Ev("Recv", t, t1, <<i>>, <<o>>, clk.now),
         clk |-> [clk EXCEPT !.lastRecv = clk.now, !.lastSent = clk.now]]
 
+DoRecvHigh ==
+    LET i == [In("D", t.nr + 1) EXCEPT !.id = 150]
+        o == Stamp([Out("2", t.ns) EXCEPT !.begin = t.nr, !.end = 0], clk.now)
+        t1 == [t EXCEPT !.ns = t.ns + 1, !.ctrl = <<t.ns + 1, t.nr>>, !.st = 12]
+    IN [t |-> t1, ev |-> Ev("Recv", t, t1, <<i>>, <<o>>, clk.now),
+        clk |-> [clk EXCEPT !.lastRecv = clk.now, !.lastSent = clk.now]]
+
 DoSend ==
     LET o == Stamp(App(t.ns, t.nid), clk.now)
         t1 == [t EXCEPT !.ns = t.ns + 1, !.nid = t.nid + 1, !.ctrl = <<t.ns + 1, t.nr>>]
@@ -69,27 +83,32 @@ DoSend ==
 
 Inputs == IF t.shutdown THEN {}
           ELSE {[op |-> "Tick", dt |-> d] : d \in {1, 2, H - 1, H, Grace, Grace + 1} \cap 1..(MaxNow - clk.now)}
-               \cup {[op |-> "RecvHb"], [op |-> "RecvTestReq"], [op |-> "Send"]}
+               \cup {[op |-> "Send"]}
+               \* after a gap the counterparty says nothing more in this model
+               \cup (IF gap THEN {} ELSE {[op |-> "RecvHb"], [op |-> "RecvTestReq"]})
+               \cup (IF ~gap /\ t.st = StCont THEN {[op |-> "RecvHigh"]} ELSE {})
 
 Apply(inp) == CASE inp.op = "Tick" -> DoTick(inp.dt)
                 [] inp.op = "RecvHb" -> DoRecvHb
                 [] inp.op = "RecvTestReq" -> DoRecvTestReq
                 [] inp.op = "Send" -> DoSend
+                [] inp.op = "RecvHigh" -> DoRecvHigh
 
 Mon0 == MonStep(MonStep(MsInit(MCfg), StartEv).m, LogonEv).m
 
 Init == /\ t = T1 /\ clk = [now |-> 0, lastSent |-> 0, lastRecv |-> 0, trAt |-> -1]
-        /\ hist = <<>> /\ mon = Mon0 /\ bad = {}
+        /\ hist = <<>> /\ mon = Mon0 /\ bad = {} /\ gap = FALSE
 Next == /\ Len(hist) < MaxSteps
         /\ \E inp \in Inputs :
              LET r == Apply(inp)  q == MonStep(mon, r.ev)
              IN /\ t' = r.t /\ clk' = r.clk /\ hist' = Append(hist, inp) /\ mon' = q.m
+                /\ gap' = (gap \/ inp.op = "RecvHigh")
                 /\ bad' = IF q.ok THEN bad ELSE bad \cup {q.sig}
-Spec == Init /\ [][Next]_<<t, clk, hist, mon, bad>>
+Spec == Init /\ [][Next]_<<t, clk, hist, mon, bad, gap>>
 
 MonitorAccepts == bad = {}
 \* the design itself: a Logout is never sent before a TestRequest has been outstanding for more than Grace
 NoEarlyLogout == t.shutdown => clk.now - clk.trAt > Grace \/ "testreq_grace_is_one_tick" \in Dev
 Edge == PrintT("LEAF " \o ToJson(hist))
-StateView == <<t, clk, mon, bad>>
+StateView == <<t, clk, mon, bad, gap>>
 =============================================================================
